@@ -35,7 +35,7 @@ THEOREMS = ["dtypes_cover", "fp_total", "fp_sat", "spec_unique", "spec_range", "
             "array_eq_scalar", "array64_eq_scalar_below_bound", "array64_defect_all", "array64_defect",
             "array_eq_scalar_repaired",
             "deprecated_no_assert", "deprecated_twos_complement", "deprecated_twos_complement_repaired",
-            "deprecated64_defect", "fix_to_float_eq"]
+            "deprecated64_defect", "fix_to_float_eq", "specFp_iff_rat"]
 
 RULE = ("one case = one format (signed, n_bits, n_frac) with 6-24 doubles built around the format: exactly at, one and "
         "two ulps around min-1, min, max, max+1 (scaled), in-range values with fractional parts, far beyond, "
